@@ -589,6 +589,9 @@ def gen_exprs(rng, tier, n_typed, n_syntax, cse=0.02, two=True, three=0):
             yield "wide", e
     for e in three_level(rng, three):
         yield "three-level", e
+    if two:
+        for e in guarded():
+            yield "guarded", e
     g = ExprGen(rng, malformed=0.0, floats=0.0, extra_nodes=False, cse=cse, lists=False,
                 foreign=False)
     for _ in range(n_typed):
@@ -596,6 +599,52 @@ def gen_exprs(rng, tier, n_typed, n_syntax, cse=0.02, two=True, three=0):
     sg = SyntaxGen(rng)
     for _ in range(n_syntax):
         yield "syntax", sg.gen(rng.randint(1, 5))
+
+
+GUARD = "k"      # an integer variable of every environment (GENERIC_INT)
+
+
+def guarded():
+    """Evaluation that is only defined because a conditional / `and` / `or` does NOT evaluate an
+    operand: a subexpression that raises for the guard value 0 (division, remainder, negative
+    power) occurs SEVERAL times, always behind the guard.  Generated code must keep it there."""
+    g = p.Variable(GUARD)
+    a = p.Variable("a")
+    q, r, d, pw = p.FloorDiv(12, g), p.Remainder(7, g), p.Quotient(1, g), p.Power(g, -1)
+    q3 = p.FloorDiv(12, p.Sum((g, -3)))          # raises at 3, fine at 0
+    bodies = [p.Sum((q, q)), p.Product((q, p.Sum((q, 1)))), p.Sum((r, p.Product((2, r)))),
+              p.Sum((d, d)), p.Sum((pw, pw)), p.Sum((q, p.Product((q, q)), r, r))]
+    for t in bodies:
+        yield p.If(g, t, 0)
+        yield p.If(p.Comparison(g, "==", 0), 0, t)
+        yield p.If(p.Comparison(g, "!=", 0), t, 1)
+        yield p.If(p.LogicalNot(g), 1, t)
+        yield p.LogicalAnd((g, p.Comparison(t, ">", 0)))
+        yield p.LogicalOr((p.LogicalNot(g), p.Comparison(t, ">", 0)))
+        yield p.LogicalAnd((p.Comparison(g, "!=", 0), p.Comparison(t, ">", 0), p.Comparison(t, "<", 99)))
+        yield p.If(a, p.If(g, t, 1), p.If(g, 2, 3))
+        yield p.Sum((1, p.If(g, t, 0)))
+    for u in (q, r, d, pw):
+        # repeated ACROSS two guarded places only
+        yield p.Sum((p.If(g, u, 5), p.If(g, u, 7)))
+        yield p.Product((p.If(g, u, 5), p.If(p.Comparison(g, "==", 0), 1, u)))
+        yield p.LogicalOr((p.LogicalAnd((g, p.Comparison(u, ">", 1))), p.LogicalAnd((g, p.Comparison(u, "<", 0)))))
+    # both branches guarded, by different values
+    yield p.If(g, p.Sum((q, q)), p.Sum((q3, q3)))
+    yield p.If(p.Comparison(g, "==", 3), p.Sum((q, q)), p.Sum((q3, q3)))
+
+
+def envs_of(rng, src, k):
+    """environments of a case: random ones; for the `guarded` family also the guard values that
+    make the unselected operand undefined"""
+    if src != "guarded":
+        return envs_payload(rng, k)
+    out = []
+    for gv in (0, 3, -2):
+        env = env_for(rng)
+        env[GUARD] = gv
+        out.append(dumps(env_to_sx(env)))
+    return out
 
 
 def sprinkle_cse(rng, e, rate=0.12):
@@ -792,7 +841,7 @@ class CompileStream(PathStream):
                 if rng.random() < 0.15:
                     listed.insert(rng.randint(0, len(listed)), "unused_arg")
             listed = [n_ for n_ in listed if n_ not in ("math", "numpy")]
-            yield {"expr": s, "listed": listed, "envs": envs_payload(rng, 2), "src": src}
+            yield {"expr": s, "listed": listed, "envs": envs_of(rng, src, 2), "src": src}
         # refusals / degenerate shapes: correspondence only
         for e in ALIAS + [p.CommonSubexpression([p.Variable("x")]), p.Substitution(p.Variable("x"), ("x",), (1,)),
                           p.Sum((p.Variable("x"), p.Derivative(p.Variable("y"), ("y",)))),
@@ -947,7 +996,7 @@ class ToAstStream(PathStream):
         for src, e in gen_exprs(rng, tier, 1300 * n, 600 * n, three=300 * n):
             s = encodable(e)
             if s is not None:
-                yield {"expr": s, "envs": envs_payload(rng, 2), "src": src}
+                yield {"expr": s, "envs": envs_of(rng, src, 2), "src": src}
 
     def request(self, pl):
         return f"(c13-toast {pl['expr']})"
@@ -979,7 +1028,7 @@ class FunctionSourceStream(PathStream):
         for src, e in gen_exprs(rng, tier, 700 * n, 300 * n, three=200 * n):
             s = encodable(e)
             if s is not None:
-                yield {"expr": s, "envs": envs_payload(rng, 2), "src": src}
+                yield {"expr": s, "envs": envs_of(rng, src, 2), "src": src}
 
     def run_impl(self, pl):
         return "(oracle-only)"
@@ -1017,7 +1066,7 @@ class RoundTripStream(PathStream):
         for src, e in gen_exprs(rng, tier, 900 * n, 400 * n, three=200 * n):
             s = encodable(e)
             if s is not None:
-                yield {"expr": s, "envs": envs_payload(rng, 1), "src": src}
+                yield {"expr": s, "envs": envs_of(rng, src, 1), "src": src}
 
     def request(self, pl):
         return f"(c13-roundtrip {pl['expr']})"
@@ -1738,7 +1787,7 @@ class SourceGroupsStream(Stream):
                 e, src = sprinkle_cse(rng, e), src + "+cse"
             s = encodable(e)
             if s is not None:
-                yield {"expr": s, "envs": envs_payload(rng, 1), "src": src}
+                yield {"expr": s, "envs": envs_of(rng, src, 1), "src": src}
         a, b, c = (p.Variable(n_) for n_ in "abc")
         for e in [p.Power(-2, a), p.Power(-2.5, a), p.Power(a, -2), p.Product((-1, a)), p.Product((a, -3)),
                   p.Quotient(-1, a), p.Sum((a, -1)), p.Comparison(a, "<", -1), p.BitwiseNot(-2),
